@@ -632,11 +632,130 @@ Fixpoint term_after_error (seen : bool) (os : list outcome) : bool :=
   | OErrLex :: r | OErrSyn :: r | OUnknown :: r => term_after_error true r
   | _ :: r => term_after_error seen r
   end.
-Definition profile (s : list N) : N :=
-  let os := read_all s in
+Definition profile_of (os : list outcome) : N :=
   let cnt := fun (f : outcome -> bool) => N.min 31 (N.of_nat (length (filter f os))) in
   cnt (fun o => match o with OTerm _ => true | _ => false end)
   + 32 * cnt (fun o => match o with OErrLex => true | _ => false end)
   + 1024 * cnt (fun o => match o with OErrSyn => true | _ => false end)
   + 32768 * cnt (fun o => match o with OUnknown => true | _ => false end)
   + 1048576 * (if term_after_error false os then 1 else 0).
+Definition profile (s : list N) : N := profile_of (read_all s).
+
+(* ------------------------------------------------------------------ compact input encoding for the correspondence
+   Texts and atom names are passed as Coq strings (number-list literals are slow to parse): printable ASCII stands
+   for itself except the double quote and the tilde; any code point may be written as tilde + 6 hex digits. *)
+From Coq Require Import String Ascii.
+Fixpoint dec_go (s : string) (k : nat) (v : N) : list N :=
+  match s with
+  | EmptyString => []
+  | String a r =>
+      let c := N_of_ascii a in
+      let h := Z.to_N (digit_val c) in
+      match k with
+      | O => if c =? 126 then dec_go r 6 0 else c :: dec_go r 0 0
+      | S O => (v * 16 + h) :: dec_go r 0 0
+      | S k' => dec_go r k' (v * 16 + h)
+      end
+  end.
+Definition dec (s : string) : list N := dec_go s 0 0.
+(* decimal integers, optional leading minus *)
+Definition zdec (s : string) : Z :=
+  match dec s with
+  | 45 :: ds => Z.opp (digits_val 10 ds)
+  | ds => digits_val 10 ds
+  end.
+Definition ndec (s : string) : N := Z.to_N (zdec s).
+
+(* verdict and profile in one evaluation of read_all: verdict + 2^20 * profile *)
+Definition vp (s : list N) (is : list iout) : N :=
+  let os := read_all s in
+  verdict_f os is 0 0 + 1048576 * profile_of os.
+
+(* the implementation's outcome list in one string (after dec): ( 'E' | 'T' term )*  with
+   term := 'V' num ';' | 'I' ['-'] num ';' | 'A' len ';' chars | 'C' len ';' chars nargs ';' term* | 'F' (anything else) *)
+Fixpoint read_num (s : list N) (acc : N) : option (N * list N) :=
+  match s with
+  | [] => None
+  | c :: r => if c =? 59 then Some (acc, r)
+              else if is_digit c then read_num r (acc * 10 + (c - 48)) else None
+  end.
+Fixpoint dterm (fuel : nat) (s : list N) : option (term * list N) :=
+  match fuel with
+  | O => None
+  | S f =>
+    match s with
+    | [] => None
+    | c :: r =>
+      if c =? 86 then
+        match read_num r 0 with Some (n, r') => Some (Var n, r') | None => None end
+      else if c =? 73 then
+        match r with
+        | d :: r1 =>
+            if d =? 45 then match read_num r1 0 with Some (n, r') => Some (Int (Z.opp (Z.of_N n)), r') | None => None end
+            else match read_num r 0 with Some (n, r') => Some (Int (Z.of_N n), r') | None => None end
+        | [] => None
+        end
+      else if c =? 65 then
+        match read_num r 0 with
+        | Some (n, r') => Some (Atom (firstn (N.to_nat n) r'), skipn (N.to_nat n) r')
+        | None => None
+        end
+      else if c =? 67 then
+        match read_num r 0 with
+        | Some (n, r') =>
+            match read_num (skipn (N.to_nat n) r') 0 with
+            | Some (k, r'') =>
+                match dargs f (N.to_nat k) r'' with
+                | Some (args, r3) => Some (Cmp (firstn (N.to_nat n) r') args, r3)
+                | None => None
+                end
+            | None => None
+            end
+        | None => None
+        end
+      else if c =? 70 then Some (Flt 0, r)
+      else None
+    end
+  end
+with dargs (fuel : nat) (k : nat) (s : list N) : option (list term * list N) :=
+  match fuel with
+  | O => None
+  | S f =>
+    match k with
+    | O => Some ([], s)
+    | S k' =>
+        match dterm f s with
+        | Some (t, r) => match dargs f k' r with Some (l, r') => Some (t :: l, r') | None => None end
+        | None => None
+        end
+    end
+  end.
+Fixpoint douts (fuel : nat) (s : list N) : option (list iout) :=
+  match fuel with
+  | O => None
+  | S f =>
+    match s with
+    | [] => Some []
+    | c :: r =>
+        if c =? 69 then option_map (cons IE) (douts f r)
+        else if c =? 84 then
+          match dterm (S (List.length r)) r with
+          | Some (t, r') => option_map (cons (IT t)) (douts f r')
+          | None => None
+          end
+        else None
+    end
+  end.
+(* 4194303 = the outcome string could not be decoded *)
+Definition vps (text outs : string) : N :=
+  let o := dec outs in
+  match douts (S (List.length o)) o with
+  | Some is => vp (dec text) is
+  | None => 4194303
+  end.
+Definition cvs (text outs : string) : N :=
+  let o := dec outs in
+  match douts (S (List.length o)) o with
+  | Some is => if check_valid (dec text) (flat_map (fun i => match i with IT t => [t] | IE => [] end) is) then 0 else 1
+  | None => 4194303
+  end.
